@@ -38,7 +38,7 @@ func c01Values(maxLen int) []string {
 }
 
 func defC01(mode int) *ph.Def {
-	return &ph.Def{Mode: mode, Unknown: 2, Help: "", MapLower: true, Root: ph.CmdDef{Name: "prog",
+	return &ph.Def{Mode: mode, Unknown: 2, Help: "help", MapLower: true, Root: ph.CmdDef{Name: "prog",
 		Opts: []ph.OptDef{
 			{Name: "str", Kind: ph.Str, DefS: "D"},
 			{Name: "int", Kind: ph.Int, DefI: 7, Var: true},
@@ -48,7 +48,7 @@ func defC01(mode int) *ph.Def {
 			{Name: "oflt", Kind: ph.FltOpt, DefF: 25.5, Var: true},
 			{Name: "b", Kind: ph.Bool},
 			{Name: "nb", Kind: ph.Bool, DefB: true},
-			{Name: "inc", Kind: ph.Incr, DefI: 2},
+			{Name: "inc", Kind: ph.Incr, DefI: 2, Var: true}, // IncrementVar: the default is written into the caller's variable
 		},
 		Cmds: []*ph.CmdDef{{Name: "c", Opts: []ph.OptDef{{Name: "d", Kind: ph.Bool}}},
 			{Name: "w", Unset: true, Unknown: 3, Opts: []ph.OptDef{{Name: "str", Kind: ph.Str, DefS: "WD"}, {Name: "int", Kind: ph.Int, DefI: -1}, {Name: "flt", Kind: ph.Flt, DefF: -1.5},
@@ -86,6 +86,8 @@ func c01Context(ctx int, occ []string, name string) []string {
 		return append([]string{"c"}, occ...)
 	case 6: // before a wrapper command that inherits nothing and declares options of its own under the same names
 		return append(append([]string{}, occ...), "w")
+	case 7: // behind the help option: a bad value is still an error
+		return append([]string{"--help"}, occ...)
 	default: // twice, the second occurrence wins
 		first := []string{"--" + name + "=1"}
 		return append(first, occ...)
@@ -103,9 +105,9 @@ func init() {
 	parserJudges["C01"] = judgeC01
 	register(&Check{
 		ID:        "C01",
-		QuickSecs: 120, ThoroSecs: 1500,
+		QuickSecs: 300, ThoroSecs: 1500,
 		Rule: "input-space exploration: value texts = all strings of length <= Lv over 13 characters {a - = space newline 1 . e + _ x é 0xFF} plus 74 numeric boundary / malformed numerals and special tokens (mixed-case texts with `=` under SetMapKeysToLower among them); " +
-			"each x 6 scalar option kinds (string, int, float64 and their optional-value forms, half declared through *Var) x 3 spellings (--name=v, --name v, unique abbreviation) x 7 contexts (alone, after/before a positional, before a flag, inside a command, second occurrence, before a wrapper command with same-named options of its own) x 3 modes; " +
+			"each x 6 scalar option kinds (string, int, float64 and their optional-value forms, half declared through *Var) x 3 spellings (--name=v, --name v, unique abbreviation) x 8 contexts (alone, after/before a positional, before a flag, inside a command, second occurrence, before a wrapper command with same-named options of its own, behind the help option) x 3 modes; " +
 			"plus every argv of length <= 4 over flag / optional-value tokens; values, Called, CalledAs, error and remaining compared with the reference model (strconv.Atoi / ParseFloat define validity); " +
 			"distinct_nontrivial = distinct cases inside the specified territory",
 		Assume: []string{"value texts longer than Lv over other characters are represented by the fixed list only", "unspecified zones (empty attached value, `-=`-style tokens) are executed but not compared"},
@@ -118,7 +120,7 @@ func init() {
 			res := c.Res
 			res.Bounds = map[string]any{"Lv": lv, "value_texts": len(vals), "flag_argv_L": 4}
 			// part 1: value texts.  unit = (mode, option, spelling, context)
-			units := 3 * len(c01Opts) * 3 * 7
+			units := 3 * len(c01Opts) * 3 * 8
 			flagAlpha := []string{"--b", "--nb", "--inc", "-b", "--ostr", "--oint", "--oflt", "pos", "--in"}
 			flagDefs := []*ph.Def{defC01(0), defC01(1), defC01(2)}
 			flagUnits := len(flagDefs) * len(flagAlpha)
